@@ -908,3 +908,346 @@ Proof.
       split; [assumption|]. split; [|reflexivity].
       split; [intros k v con [] | intros o1 v1 Heq; discriminate].
 Qed.
+
+(* ------------------------------------------------------------------ histories *)
+
+Fixpoint ac_go (c : ac_cfg) (st : ac_state) (tr : list (ob_op * list ob_out)) : option ac_state :=
+  match tr with
+  | [] => Some st
+  | e :: tl => match ac_step c st e with AcOk st' => ac_go c st' tl | AcBad _ => None end
+  end.
+
+Lemma ac_run_go : forall c tr st i st', ac_run c st i tr = inl st' <-> ac_go c st tr = Some st'.
+Proof.
+  intros c. induction tr as [|e tl IH]; intros st i st'; cbn [ac_run ac_go].
+  - split; intro H; inversion H; reflexivity.
+  - destruct (ac_step c st e); [apply IH|]. split; discriminate.
+Qed.
+
+Lemma ac_go_app : forall c t1 t2 st,
+  ac_go c st (t1 ++ t2) = match ac_go c st t1 with Some s1 => ac_go c s1 t2 | None => None end.
+Proof.
+  intros c. induction t1 as [|e tl IH]; intros t2 st; cbn [app ac_go]; [reflexivity|].
+  destruct (ac_step c st e); [apply IH | reflexivity].
+Qed.
+
+Lemma ac_go_wf : forall c tr st st', ac_wf (as_res st) -> ac_go c st tr = Some st' -> ac_wf (as_res st').
+Proof.
+  intros c. induction tr as [|e tl IH]; intros st st' Hwf H; cbn [ac_go] in H.
+  - inversion H; subst. assumption.
+  - destruct (ac_step c st e) as [st1|] eqn:E; [|discriminate].
+    eapply IH; [|eassumption]. eapply ac_step_wf; eassumption.
+Qed.
+
+Lemma ac_init_res_ids : forall modes id y, In y (ac_init_res id modes) -> id <= ar_id y /\ ar_obs y = [].
+Proof.
+  induction modes as [|m tl IH]; cbn [ac_init_res]; intros id y H; [destruct H|].
+  destruct H as [<-|H]; [cbn; split; [lia | reflexivity]|]. apply IH in H. destruct H. split; [lia | assumption].
+Qed.
+
+Lemma ac_init_wf : forall c, ac_wf (as_res (ac_init c)).
+Proof.
+  intro c. unfold ac_init. cbn [as_res]. generalize 0 as id. generalize (cf_modes c) as modes.
+  induction modes as [|m tl IH]; intro id; cbn [ac_init_res].
+  - split; constructor.
+  - destruct (IH (id + 1)) as [A B]. split; cbn [map ar_id].
+    + constructor; [|assumption]. intro H. apply in_map_iff in H. destruct H as [y [Hy Hin]].
+      apply ac_init_res_ids in Hin. lia.
+    + constructor; [unfold ac_res_wf; cbn; constructor | assumption].
+Qed.
+
+(* ------------------------------------------------------------------ C11: nothing after de-registration *)
+
+Definition ac_registers (e : ob_op * list ob_out) (r s : Z) (t : ob_tok) : Prop :=
+  exists o v, e = (OpRegister r s t o, [ORegResp r s t (Some v)]).
+
+(* whatever an accepted entry sends to (r, s, t) - notification, error response, 4.04 - goes to
+   an observer that was registered before that entry *)
+Lemma ac_step_out_registered : forall c st op outs st' out r s t,
+  ac_step c st (op, outs) = AcOk st' -> In out outs -> ac_out_key out = Some (r, s, t) ->
+  exists o, ac_entry st r s t = Some o.
+Proof.
+  intros c st op outs st' out r s t H Hin Hk. destruct op; cbn [ac_step] in H;
+    try (apply ac_quiet_inv in H; destruct H as [-> _]; destruct Hin).
+  - unfold ac_register in H. destruct (ac_get r0 (as_res st)).
+    + destruct outs as [|o1 [|o2 outs]]; [discriminate | | destruct o1; discriminate].
+      destruct o1; try discriminate. destruct Hin as [<-|[]]. discriminate.
+    + destruct outs; [destruct Hin | discriminate].
+  - unfold ac_iostep in H.
+    destruct (ac_outs c (mk_aw (as_res st) (as_fl st) (as_nk st) (as_sent st) ca) outs) as [w|] eqn:E;
+      [|discriminate].
+    exact (outs_registered c r s t outs _ w out E Hin Hk).
+  - unfold ac_delete in H. destruct (ac_get r0 (as_res st)) as [res|] eqn:G.
+    + destruct (ac_gone_ok r0 (ar_obs res) outs) eqn:GO; [|discriminate].
+      clear H. revert GO Hin. induction outs as [|o0 outs IH]; intros GO Hin; [destruct Hin|].
+      cbn [ac_gone_ok] in GO. destruct o0; try discriminate.
+      apply andb_true_iff in GO. destruct GO as [GO1 GO2]. apply andb_true_iff in GO1.
+      destruct GO1 as [Er Ef]. destruct Hin as [<-|Hin]; [|apply IH; assumption].
+      cbn in Hk. inversion Hk; subst. apply Z.eqb_eq in Er. subst r0.
+      unfold ac_entry, ac_find. rewrite G. destruct (ob_find (ac_obs_is s t) (ar_obs res)) as [q|];
+        [exists q; reflexivity | discriminate].
+    + destruct outs; [destruct Hin | discriminate].
+Qed.
+
+(* an observer appears only through an accepted registration *)
+Lemma ac_step_adds : forall c st op outs st' r s t,
+  ac_wf (as_res st) -> ac_step c st (op, outs) = AcOk st' ->
+  ac_reg st r s t = false -> ac_reg st' r s t = true -> ac_registers (op, outs) r s t.
+Proof.
+  intros c st op outs st' r s t Hwf H H0 H1. unfold ac_reg in *.
+  destruct (ac_entry st' r s t) as [o'|] eqn:E1; [|discriminate].
+  destruct (ac_entry st r s t) as [o|] eqn:E0; [discriminate|].
+  destruct (ac_step_entry c st op outs st' r s t o' Hwf H E1)
+    as [[q [Q _]]|[[q [ca [k [v [con [_ [Q _]]]]]]]|[[q [opts [v [_ [_ [Q _]]]]]]|[opts [v [A [B _]]]]]]];
+    try congruence.
+  subst. exists opts, v. reflexivity.
+Qed.
+
+(* C11: after (r, s, t) is not registered, nothing is sent to it until it registers again *)
+Theorem ac_none_while_unregistered : forall c r s t tr st st',
+  ac_wf (as_res st) -> ac_go c st tr = Some st' -> ac_reg st r s t = false ->
+  (forall e, In e tr -> ~ ac_registers e r s t) ->
+  (forall e out, In e tr -> In out (snd e) -> ac_out_key out <> Some (r, s, t)) /\
+  ac_reg st' r s t = false.
+Proof.
+  intros c r s t. induction tr as [|[op outs] tl IH]; intros st st' Hwf H H0 Hno; cbn [ac_go] in H.
+  - inversion H; subst. split; [intros e out [] | assumption].
+  - destruct (ac_step c st (op, outs)) as [st1|] eqn:E; [|discriminate].
+    assert (H1 : ac_reg st1 r s t = false).
+    { destruct (ac_reg st1 r s t) eqn:R1; [|reflexivity]. exfalso.
+      apply (Hno (op, outs) (or_introl eq_refl)). eapply ac_step_adds; eassumption. }
+    destruct (IH st1 st' (ac_step_wf _ _ _ _ Hwf E) H H1 (fun e He => Hno e (or_intror He))) as [I1 I2].
+    split; [|assumption]. intros e out [<-|He] Hout Hk; [|eapply I1; eassumption].
+    cbn [snd] in Hout. destruct (ac_step_out_registered _ _ _ _ _ _ _ _ _ E Hout Hk) as [q Hq].
+    unfold ac_reg in H0. rewrite Hq in H0. discriminate.
+Qed.
+
+(* ------------------------------------------------------------------ the de-registration events *)
+
+Lemma ac_reg_false : forall st r s t, ac_entry st r s t = None -> ac_reg st r s t = false.
+Proof. intros st r s t H. unfold ac_reg. rewrite H. reflexivity. Qed.
+
+(* Observe:1 with the token of the registration *)
+Lemma ac_dereg_cancel : forall c st r s t o outs st',
+  ac_wf (as_res st) -> ac_step c st (OpCancel r s t o, outs) = AcOk st' -> ac_reg st' r s t = false.
+Proof.
+  intros c st r s t o outs st' Hwf H. cbn [ac_step] in H. apply ac_quiet_inv in H. destruct H as [_ ->].
+  apply ac_reg_false. unfold ac_entry. cbn [as_res ac_set_res]. rewrite ac_find_upd, Z.eqb_refl.
+  destruct (ac_get r (as_res st)) as [y|] eqn:G; [|reflexivity].
+  pose proof (ac_wf_get _ _ _ Hwf G) as Hnd. unfold ac_cancel_obs.
+  destruct (ob_find (ac_obs_is s t) (ar_obs y)) as [q|] eqn:F; [apply find_del_same; assumption|].
+  destruct (ob_find (ac_obs_is s t) (ac_replace_key s (ob_key o) (ar_obs y))) as [q|] eqn:F2;
+    [|reflexivity].
+  rewrite (ac_replace_key_sub _ _ _ _ _ _ F2 Hnd) in F. discriminate.
+Qed.
+
+(* Observe:1 with another token but the cache key of the registration *)
+Lemma ac_dereg_cancel_key : forall c st r s t t' o outs st' q,
+  ac_wf (as_res st) -> ac_step c st (OpCancel r s t' o, outs) = AcOk st' ->
+  ac_entry st r s t' = None -> ac_entry st r s t = Some q -> ao_key q = ob_key o ->
+  (forall q', ac_entry st r s (ao_t q') = Some q' -> ao_key q' = ob_key o -> ao_t q' = t) ->
+  ac_reg st' r s t = false.
+Proof.
+  intros c st r s t t' o outs st' q Hwf H Hnone Hq Hkey Huniq. cbn [ac_step] in H.
+  apply ac_quiet_inv in H. destruct H as [_ ->]. apply ac_reg_false. unfold ac_entry in *.
+  cbn [as_res ac_set_res]. rewrite ac_find_upd, Z.eqb_refl. unfold ac_find in *.
+  destruct (ac_get r (as_res st)) as [y|] eqn:G; [|reflexivity].
+  pose proof (ac_wf_get _ _ _ Hwf G) as Hnd. unfold ac_cancel_obs. rewrite Hnone. unfold ac_replace_key.
+  destruct (ob_find (ac_obs_keyis s (ob_key o)) (ar_obs y)) as [old|] eqn:Fk.
+  - assert (ao_t old = t).
+    { apply ob_find_some in Fk. destruct Fk as [Hin Hk]. unfold ac_obs_keyis in Hk.
+      apply andb_true_iff in Hk. destruct Hk as [Hs Hk]. apply Z.eqb_eq in Hs. apply ob_opts_eqb_eq in Hk.
+      apply Huniq; [|assumption].
+      (* old is found under its own token *)
+      clear - Hin Hnd Hs. induction (ar_obs y) as [|z l IH]; [destruct Hin|]. cbn [ob_find map] in *.
+      inversion Hnd as [|? ? Hn Hd]; subst. destruct Hin as [->|Hin].
+      - assert (ac_obs_is (ao_s old) (ao_t old) old = true) as -> by (apply ac_obs_is_kt; reflexivity).
+        reflexivity.
+      - destruct (ac_obs_is (ao_s old) (ao_t old) z) eqn:E; [|apply IH; assumption].
+        exfalso. apply Hn. apply ac_obs_is_kt in E. rewrite E. apply (in_map ac_kt) in Hin. exact Hin. }
+    subst t. apply find_del_same. assumption.
+  - exfalso. pose proof (ob_find_some _ _ _ Hq) as [Hin _].
+    pose proof (ob_find_none _ _ Fk q Hin) as Hf. unfold ac_obs_keyis in Hf.
+    pose proof (ob_find_some _ _ _ Hq) as [_ Hm]. unfold ac_obs_is in Hm.
+    apply andb_true_iff in Hm. destruct Hm as [Hs _]. rewrite Hs, Hkey, ob_opts_eqb_refl in Hf. discriminate.
+Qed.
+
+(* an error-class response instead of a notification *)
+Lemma ac_dereg_error : forall c st ca outs st' k r s t con,
+  ac_wf (as_res st) -> ac_step c st (OpIoStep ca, outs) = AcOk st' ->
+  In (OErr k r s t con) outs -> ac_reg st' r s t = false.
+Proof.
+  intros c st ca outs st' k r s t con Hwf H Hin. cbn [ac_step] in H. unfold ac_iostep in H.
+  destruct (ac_outs c (mk_aw (as_res st) (as_fl st) (as_nk st) (as_sent st) ca) outs) as [w|] eqn:E;
+    [|discriminate].
+  destruct (ac_all_settled c (aw_cnt w) (aw_res w)); [|discriminate]. inversion H; subst st'.
+  apply ac_reg_false. unfold ac_entry. cbn [as_res].
+  (* split the outputs at the error response *)
+  apply in_split in Hin. destruct Hin as [o1 [o2 ->]].
+  assert (Happ : forall w0 a b, ac_outs c w0 (a ++ b) =
+            match ac_outs c w0 a with inl w1 => ac_outs c w1 b | inr e => inr e end).
+  { intros w0 a. revert w0. induction a as [|x a IH]; intros w0 b; cbn [app ac_outs]; [reflexivity|].
+    destruct (ac_out_step c w0 x); [apply IH | reflexivity]. }
+  rewrite Happ in E.
+  destruct (ac_outs c (mk_aw (as_res st) (as_fl st) (as_nk st) (as_sent st) ca) o1) as [w1|] eqn:E1;
+    [|discriminate].
+  cbn [ac_outs] in E. destruct (ac_out_step c w1 (OErr k r s t con)) as [w2|] eqn:E2; [|discriminate].
+  pose proof (outs_wf _ _ _ _ E1 Hwf) as Hwf1.
+  destruct (out_step_err _ _ _ _ _ _ _ _ E2) as [_ Hnone].
+  eapply outs_no_new; [eassumption | apply Hnone; assumption].
+Qed.
+
+(* the session is lost *)
+Lemma ac_dereg_lost : forall c st s outs st' r t,
+  ac_step c st (OpSessionLost s, outs) = AcOk st' -> ac_reg st' r s t = false.
+Proof.
+  intros c st s outs st' r t H. cbn [ac_step] in H. apply ac_quiet_inv in H. destruct H as [_ ->].
+  apply ac_reg_false. unfold ac_entry, ac_lost. cbn [as_res]. rewrite ac_find_map.
+  destruct (ac_get r (as_res st)); [|reflexivity]. rewrite find_filter_sess, Z.eqb_refl. reflexivity.
+Qed.
+
+(* the resource is deleted *)
+Lemma ac_dereg_deleted : forall c st r ca outs st' s t,
+  ac_wf (as_res st) -> ac_step c st (OpDeleteResource r ca, outs) = AcOk st' -> ac_reg st' r s t = false.
+Proof.
+  intros c st r ca outs st' s t Hwf H. cbn [ac_step] in H. unfold ac_delete in H.
+  destruct (ac_get r (as_res st)) as [res|] eqn:G.
+  - destruct (ac_gone_ok r (ar_obs res) outs); [|discriminate]. inversion H; subst st'.
+    apply ac_reg_false. unfold ac_entry, ac_find. cbn [as_res ac_set_res].
+    rewrite ac_get_drop_same by apply Hwf. reflexivity.
+  - destruct outs; [|discriminate]. inversion H; subst st'. apply ac_reg_false.
+    unfold ac_entry, ac_find. rewrite G. reflexivity.
+Qed.
+
+(* the strict rule can only remove more *)
+Lemma ac_rst_strict_shrinks : forall s k st rs,
+  ac_wf rs -> ac_wf (ac_rst_strict s k st rs) /\ ac_shrinks rs (ac_rst_strict s k st rs).
+Proof.
+  intros s k st rs Hwf. unfold ac_rst_strict. destruct (ac_sent_find k (as_sent st)) as [n|];
+    [|split; [assumption | intros r1 s1 t1 q Hq; exact Hq]].
+  destruct (sn_s n =? s); [|split; [assumption | intros r1 s1 t1 q Hq; exact Hq]].
+  apply ac_upd_shrinks; [assumption|]. intros l Hl.
+  destruct (ob_find (ac_obs_is s (sn_t n)) l) as [o1|]; [|auto].
+  destruct (ao_since o1 <=? k); [apply del_shrinks_list; assumption | auto].
+Qed.
+
+(* RST answering a confirmable notification that is still being retransmitted *)
+Lemma ac_dereg_rst_inflight : forall c st s k outs st' f r,
+  ac_wf (as_res st) -> ac_step c st (OpRst s k, outs) = AcOk st' ->
+  ob_fl_find s k (as_fl st) = Some f -> ac_reg st' r s (fl_tok f) = false.
+Proof.
+  intros c st s k outs st' f r Hwf H Hf. cbn [ac_step] in H. apply ac_quiet_inv in H.
+  destruct H as [_ ->]. unfold ac_rst. rewrite Hf.
+  set (st1 := mk_as (ac_del_everywhere s (fl_tok f) (as_res st)) _ _ _).
+  assert (W1 : ac_wf (as_res st1)).
+  { subst st1. cbn. apply ac_map_wf; [|assumption]. intros l Hl. apply nodup_del. assumption. }
+  assert (N1 : ac_entry st1 r s (fl_tok f) = None).
+  { subst st1. unfold ac_entry, ac_del_everywhere. cbn [as_res]. rewrite ac_find_map.
+    destruct (ac_get r (as_res st)) as [y|] eqn:G; [|reflexivity].
+    apply find_del_same. exact (ac_wf_get _ _ _ Hwf G). }
+  destruct (cf_strict c); [|apply ac_reg_false; assumption].
+  apply ac_reg_false. unfold ac_entry in *. cbn [as_res ac_set_res].
+  destruct (ac_find (ac_rst_strict s k st (as_res st1)) r s (fl_tok f)) as [q|] eqn:F; [|reflexivity].
+  destruct (ac_rst_strict_shrinks s k st _ W1) as [_ Hs]. rewrite (Hs _ _ _ _ F) in N1. discriminate.
+Qed.
+
+(* RST answering the latest notification of an observer (nothing of it in flight) *)
+Lemma ac_dereg_rst_latest : forall c st s k outs st' r t q,
+  ac_wf (as_res st) -> ac_step c st (OpRst s k, outs) = AcOk st' ->
+  ob_fl_find s k (as_fl st) = None -> ac_entry st r s t = Some q -> ao_lastk q = k ->
+  (forall r' t' q', ac_entry st r' s t' = Some q' -> ao_lastk q' = k -> r' = r /\ t' = t) ->
+  ac_reg st' r s t = false.
+Proof.
+  intros c st s k outs st' r t q Hwf H Hf Hq Hk Huniq. cbn [ac_step] in H. apply ac_quiet_inv in H.
+  destruct H as [_ ->]. unfold ac_rst. rewrite Hf.
+  assert (N1 : ac_find (ac_rst_by_last s k (as_res st)) r s t = None).
+  { unfold ac_entry in *. revert Hq Huniq. destruct Hwf as [A B]. revert A B.
+    induction (as_res st) as [|y rs IH]; intros A B Hq Huniq; [discriminate|].
+    cbn [map] in A. inversion A as [|a0 l0 Hn Hd]; subst a0 l0.
+    inversion B as [|a1 l1 By Brs]; subst a1 l1.
+    cbn [ac_rst_by_last].
+    destruct (ob_find (fun o => (ao_lastk o =? k) && (ao_s o =? s)) (ar_obs y)) as [o1|] eqn:F1.
+    - (* the first resource with such an entry: it must be ours *)
+      pose proof (ob_find_some _ _ _ F1) as [Hin1 Hp1]. apply andb_true_iff in Hp1.
+      destruct Hp1 as [Hl1 Hs1]. apply Z.eqb_eq in Hl1, Hs1.
+      assert (Hown : ac_find (y :: rs) (ar_id y) s (ao_t o1) = Some o1).
+      { unfold ac_find. cbn [ac_get]. rewrite Z.eqb_refl. clear - Hin1 By Hs1.
+        unfold ac_res_wf in By. induction (ar_obs y) as [|z l IH]; [destruct Hin1|].
+        cbn [ob_find map] in *. inversion By as [|? ? Hn Hd]; subst. destruct Hin1 as [->|Hin].
+        - assert (ac_obs_is (ao_s o1) (ao_t o1) o1 = true) as -> by (apply ac_obs_is_kt; reflexivity).
+          reflexivity.
+        - destruct (ac_obs_is (ao_s o1) (ao_t o1) z) eqn:E; [|apply IH; assumption].
+          exfalso. apply Hn. apply ac_obs_is_kt in E. rewrite E. apply (in_map ac_kt) in Hin. exact Hin. }
+      destruct (Huniq _ _ _ Hown Hl1) as [Er Et]. subst r t.
+      unfold ac_find. cbn [ac_get ar_id]. rewrite Z.eqb_refl. cbn [ar_obs]. apply find_del_same. assumption.
+    - unfold ac_find in *. cbn [ac_get] in *. destruct (ar_id y =? r) eqn:Er.
+      + (* ours is in this resource, yet no entry here has lastk = k *)
+        exfalso. pose proof (ob_find_some _ _ _ Hq) as [Hin Hm].
+        pose proof (ob_find_none _ _ F1 q Hin) as Hf1. cbv beta in Hf1. unfold ac_obs_is in Hm.
+        apply andb_true_iff in Hm. destruct Hm as [Hs _]. rewrite Hk, Z.eqb_refl, Hs in Hf1. discriminate.
+      + apply IH; try assumption. intros r' t' q' Hq' Hk'. apply (Huniq r' t' q'); [|assumption].
+        destruct (ar_id y =? r') eqn:Er'; [|assumption]. exfalso. apply Hn.
+        destruct (ac_get r' rs) as [y'|] eqn:G'; [|discriminate]. apply ac_get_in in G'.
+        destruct G' as [G1 G2]. apply Z.eqb_eq in Er'. rewrite Er', <- G2. apply in_map. assumption. }
+  assert (W1 : ac_wf (ac_rst_by_last s k (as_res st))) by (apply ac_rst_by_last_shrinks; assumption).
+  destruct (cf_strict c); [|apply ac_reg_false; exact N1].
+  apply ac_reg_false. unfold ac_entry. cbn [as_res ac_set_res].
+  destruct (ac_find (ac_rst_strict s k st (ac_rst_by_last s k (as_res st))) r s t) as [q1|] eqn:F;
+    [|reflexivity].
+  destruct (ac_rst_strict_shrinks s k st _ W1) as [_ Hs]. rewrite (Hs _ _ _ _ F) in N1. discriminate.
+Qed.
+
+(* a confirmable notification is given up *)
+Lemma ac_dereg_giveup : forall c st s k outs st' f r,
+  ac_wf (as_res st) -> ac_step c st (OpConFailed s k, outs) = AcOk st' ->
+  ob_fl_find s k (as_fl st) = Some f -> ac_reg st' r s (fl_tok f) = false.
+Proof.
+  intros c st s k outs st' f r Hwf H Hf. cbn [ac_step] in H. apply ac_quiet_inv in H.
+  destruct H as [_ ->]. unfold ac_confailed. rewrite Hf. apply ac_reg_false.
+  unfold ac_entry, ac_del_everywhere. cbn [as_res]. rewrite ac_find_map.
+  destruct (ac_get r (as_res st)) as [y|] eqn:G; [|reflexivity].
+  apply find_del_same. eapply ac_wf_get; eassumption.
+Qed.
+
+(* an error-class answer to the registration request itself *)
+Lemma ac_dereg_failed_registration : forall c st r s t o st',
+  ac_wf (as_res st) -> ac_step c st (OpRegister r s t o, [ORegResp r s t None]) = AcOk st' ->
+  ac_reg st' r s t = false.
+Proof.
+  intros c st r s t o st' Hwf H. cbn [ac_step] in H. unfold ac_register in H.
+  destruct (ac_get r (as_res st)) as [res|] eqn:G; [|discriminate].
+  rewrite !Z.eqb_refl, ob_bytes_eqb_refl in H. cbn [andb] in H.
+  pose proof (ac_wf_get _ _ _ Hwf G) as Hnd. apply ac_reg_false. unfold ac_entry.
+  destruct (ob_find (ac_obs_is s t) (ar_obs res)) as [o1|] eqn:F; inversion H; subst st';
+    cbn [as_res ac_set_res]; rewrite ac_find_upd, Z.eqb_refl, G.
+  - apply find_del_same. assumption.
+  - destruct (ob_find (ac_obs_is s t) (ac_replace_key s (ob_key o) (ar_obs res))) as [q|] eqn:F2;
+      [|reflexivity].
+    rewrite (ac_replace_key_sub _ _ _ _ _ _ F2 Hnd) in F. discriminate.
+Qed.
+
+(* the strict reading of the property: RST for any notification of the current registration *)
+Lemma ac_dereg_rst_strict : forall c st s k outs st' n q,
+  cf_strict c = true -> ac_wf (as_res st) -> ac_step c st (OpRst s k, outs) = AcOk st' ->
+  ac_sent_find k (as_sent st) = Some n -> sn_s n = s ->
+  ac_entry st (sn_r n) s (sn_t n) = Some q -> ao_since q <= k ->
+  ac_reg st' (sn_r n) s (sn_t n) = false.
+Proof.
+  intros c st s k outs st' n q Hstrict Hwf H Hn Hs Hq Hsince. cbn [ac_step] in H.
+  apply ac_quiet_inv in H. destruct H as [_ ->]. unfold ac_rst. rewrite Hstrict.
+  set (st1 := match ob_fl_find s k (as_fl st) with Some f => _ | None => _ end).
+  assert (W1 : ac_wf (as_res st1) /\ ac_shrinks (as_res st) (as_res st1)).
+  { subst st1. destruct (ob_fl_find s k (as_fl st)) as [f|]; cbn.
+    - apply ac_map_shrinks; [assumption|]. intros l Hl. apply del_shrinks_list. assumption.
+    - apply ac_rst_by_last_shrinks. assumption. }
+  destruct W1 as [W1 W2]. apply ac_reg_false. unfold ac_entry in *. cbn [as_res ac_set_res].
+  unfold ac_rst_strict. rewrite Hn, Hs, Z.eqb_refl. rewrite ac_find_upd, Z.eqb_refl.
+  destruct (ac_get (sn_r n) (as_res st1)) as [y|] eqn:G; [|reflexivity].
+  pose proof (ac_wf_get _ _ _ W1 G) as Hnd.
+  destruct (ob_find (ac_obs_is s (sn_t n)) (ar_obs y)) as [o1|] eqn:F; [|assumption].
+  assert (Ho : o1 = q).
+  { assert (ac_find (as_res st1) (sn_r n) s (sn_t n) = Some o1) by (unfold ac_find; rewrite G; assumption).
+    apply W2 in H. congruence. }
+  subst o1. assert (ao_since q <=? k = true) as -> by (apply Z.leb_le; assumption).
+  apply find_del_same. assumption.
+Qed.
